@@ -37,6 +37,7 @@ def parseOp : List String → Option Op
   | "xf" :: "X" :: ins => (parseInstr ins).map (.h (.xf .x))
   | "xf" :: "Y" :: ins => (parseInstr ins).map (.h (.xf .y))
   | "xf" :: "nosuch" :: ins => (parseInstr ins).map (.h (.xf .z))
+  | "xs" :: "um" :: ins => (parseInstr ins).map (.h .xs)
   | _ => none
 
 /-- split the token list at ";" -/
